@@ -628,8 +628,9 @@ func regRun(e *Env) {
 	nick := g.Str(alnum[:52], 1, 9)
 	ident := []string{"", "ident", "a"}[g.Intn(3)]
 	// (free text is sent as configured, blanks at its end included)
-	name := []string{"", "Real Name", "x", "name with : colon", "Trailing Blank ", "tab at the end\t"}[g.Intn(6)]
-	pass := []string{"", "", "secret", "p:w", "with space", "blank at the end "}[g.Intn(6)]
+	// (... and octets that are not UTF-8: a Latin-1 name, a binary password)
+	name := []string{"", "Real Name", "x", "name with : colon", "Trailing Blank ", "tab at the end\t", "Jos\xe9 Mu\xf1oz", "\u65e5\u672c"}[g.Intn(8)]
+	pass := []string{"", "", "secret", "p:w", "with space", "blank at the end ", "p\xe4ss\xff\xfe"}[g.Intn(7)]
 	capNeg := g.Pct(30)
 	sslMode := g.W(7, 1, 2) // 0 plain, 1 SSL with nothing behind the socket (handshake fails), 2 SSL with a real TLS server
 	ssl := sslMode != 0
@@ -697,6 +698,7 @@ func regRun(e *Env) {
 		{":" + strings.Repeat("M", 507), strings.Repeat("M", 507)}, {":" + strings.Repeat("N", 600) + " end", strings.Repeat("N", 600) + " end"},
 		{":" + strings.Repeat("O", 5000), strings.Repeat("O", 5000)},
 		{":abc ", "abc "}, {":   ", "   "}, {":tab\t", "tab\t"}, {": lead and trail  ", " lead and trail  "},
+		{":caf\xe9 \xff\xfe\x80", "caf\xe9 \xff\xfe\x80"}, {":\u65e5\u672c\U0001F60A", "\u65e5\u672c\U0001F60A"},
 		{":100%", "100%"}, {":50%done %s %d %v", "50%done %s %d %v"}, {":%!(NOVERB)%%", "%!(NOVERB)%%"}, {"a%20b", "a%20b"}}
 	slowServer := sslMode == 0 && g.Pct(40)
 	e.LinkPlan = func(l *simnet.Link) {
@@ -1130,8 +1132,13 @@ func capRun(e *Env) {
 	cfg.PingFreq = 0
 	cfg.Server = "irc.sim"
 	cfg.Proxy = "sim://p"
-	user, pw := "user"+g.Str(lower, 1, 4), "pw"+g.Str(alnum, 0, 8)
-	extID := []string{"", "ident"}[g.Intn(2)]
+	// (credentials over bytes that reach the last two symbols of the base64
+	// alphabet, '+' and '/': '>', '?', '~' in the right place, or non-ASCII)
+	user, pw := "user"+g.Str(lower, 1, 4), "pw"+g.Str(alnum+">?~>?~", 0, 8)
+	if g.Pct(25) {
+		pw += []string{"\u00ff", "p\u00e4ss\u00f6\u00ff", "\xfb\xff\xbf"}[g.Intn(3)]
+	}
+	extID := []string{"", "ident", "ab?", "id~>\u00ff"}[g.Intn(4)]
 	var wantMech, wantIR string
 	switch saslKind {
 	case 1:
